@@ -335,7 +335,7 @@ def run(ctx, br):
     if rep and isinstance(rep.get("replay"), dict) and rep["replay"].get("request"):
         reqs = [dict(rep["replay"]["request"], _class="replay", _profile="replay") for _ in range(5)]
     else:
-        n = 420 if quick else 2400
+        n = 420 if quick else 6000
         reqs = [gen_case(ctx.rng, i, not quick) for i in range(n)]
     resps = run_impl(reqs, par=4 if quick else 6)
     oracle_fail = 0
